@@ -7,11 +7,21 @@ Tie     : extracted range/raised classes/call-site shapes (tools/extractors/clie
           check_for_errors, ServerProxy._request, ServerProxy._request_notify and every way of reading a MultiCall
           result (index, iteration, list(), unpacking) on the same reply objects, under a proxy with use_jsonclass
           off and on.
+          The same access paths are also fed THROUGH THE REAL TRANSPORT (harness/clientwire.py; model
+          lean/JRV/Model/ClientWire.lean): replies of 1 KiB and more as raw-UTF-8 JSON bodies whose multi-byte characters sit
+          at every alignment around the multiples of the 1024-byte read size of Transport.parse_response, delivered by
+          http.client over an in-memory socket and over real TCP / Unix sockets, with a Content-Length, gzip-encoded, in
+          chunked transfer encoding and closed by the peer - error replies, results, MultiCall arrays, notifications.
 Monitor : written from the property statement (independent of the model).
 """
 import itertools
 import json
+import shutil
+import socket
+import tempfile
 
+import clientwire
+import core
 import gen
 import impl
 import pyval
@@ -22,7 +32,9 @@ REQUIRED_THEOREMS = [
     "C06_batch_single_error", "C06_batch_array",
     "C06_proxy_error", "C06_notify_error", "C06_notify_none", "C06_iter_first_error", "C06_iter_all", "C06_list",
     "C06_unpack_error", "C06_full_statement_false",
-    "C06_gen_protoRange", "C06_gen_errorClasses", "C06_gen_clientCallSites",
+    "C06_wire_text", "C06_wire_run", "C06_wire_error", "C06_wire_result", "C06_wire_multicall",
+    "C06_wire_piecewise_decoding_differs",
+    "C06_gen_protoRange", "C06_gen_errorClasses", "C06_gen_clientCallSites", "C06_gen_replyDecodedOnce",
 ]
 
 LO, HI = -32700, -32000
@@ -293,9 +305,12 @@ def canon_model_iter(line):
     return " | ".join(impl.canon_model_line(part) for part in line.split(" | "))
 
 
-def drive_reply(ctx, cl, reply, text, enc, lines, impl_out, with_cfe):
-    """One reply object through check_for_errors, a proxy call and a notification call."""
+def drive_reply(ctx, cl, reply, text, enc, lines, impl_out, with_cfe, comps=("proxy", "notify"), prefix="", extra=None):
+    """One reply object through check_for_errors, a proxy call and a notification call.
+    `comps`/`prefix`: the model components the two calls are compared with and what precedes the reply on their lines
+    (the wire path: `wcall`/`wnotify` and `<read size> <hex body> `); `extra`: members added to the case of a violation."""
     via = lambda w: "%s [%s]" % (w, cl.tag)  # noqa: E731
+    extra = extra or {}
     k = v = None
     if with_cfe:
         k, v = impl.outcome(cl.J.check_for_errors, json.loads(text))
@@ -307,27 +322,29 @@ def drive_reply(ctx, cl, reply, text, enc, lines, impl_out, with_cfe):
     k2, v2 = cl.call(text)
     m = monitor(reply, k2, v2, via("ServerProxy call"))
     if m:
-        ctx.violate({"reply": reply, "via": "ServerProxy", "config": cl.tag}, m, key="proxy:" + m[:60])
-    lines.append("proxy " + enc)
+        ctx.violate(dict({"reply": reply, "via": "ServerProxy", "config": cl.tag}, **extra), m, key="proxy:" + m[:60])
+    lines.append(comps[0] + " " + prefix + enc)
     impl_out.append(impl.canon_outcome(k2, v2))
     k5, v5 = cl.notify(text)
     m = monitor(reply, k5, v5, via("ServerProxy._notify call"), returns_result=False)
     if m is None and k5 == "ok" and v5 is not None and in_domain(reply):
         m = "%s returned %r (a notification call returns nothing)" % (via("ServerProxy._notify call"), v5)
     if m:
-        ctx.violate({"reply": reply, "via": "ServerProxy._notify", "config": cl.tag}, m, key="notify:" + m[:60])
-    lines.append("notify " + enc)
+        ctx.violate(dict({"reply": reply, "via": "ServerProxy._notify", "config": cl.tag}, **extra), m, key="notify:" + m[:60])
+    lines.append(comps[1] + " " + prefix + enc)
     impl_out.append(impl.canon_outcome(k5, v5))
     return k, v
 
 
-def drive_batch(ctx, cl, batch, lines, impl_out, positions=None):
+def drive_batch(ctx, cl, batch, lines, impl_out, positions=None, btext=None, extra=None):
     """An array reply read by index, by iteration, by list() and by unpacking."""
-    btext = json.dumps(batch)
+    extra = extra or {}
+    if btext is None:
+        btext = json.dumps(batch)
     benc = pyval.enc(batch)
     k, results = cl.multicall(btext, len(batch))
     if k != "ok":
-        ctx.violate({"batch": batch, "via": "MultiCall()", "config": cl.tag},
+        ctx.violate(dict({"batch": batch, "via": "MultiCall()", "config": cl.tag}, **extra),
                     "the batch call raised %s over an array reply" % type(results).__name__, key="mc-call-raises")
         return
     tag = cl.tag
@@ -336,20 +353,20 @@ def drive_batch(ctx, cl, batch, lines, impl_out, positions=None):
         if isinstance(batch[pos], dict):
             m = monitor(batch[pos], k3, v3, "MultiCall[%d] [%s]" % (pos, tag))
             if m:
-                ctx.violate({"batch": batch, "via": "MultiCall-index", "position": pos, "config": tag}, m,
+                ctx.violate(dict({"batch": batch, "via": "MultiCall-index", "position": pos, "config": tag}, **extra), m,
                             key="multicall:" + m[:60])
         lines.append("mcget %d %s" % (pos, benc))
         impl_out.append(impl.canon_outcome(k3, v3))
     got, exc = iterate(results)
     m = monitor_iteration(batch, got, exc, "for r in MultiCall() [%s]" % tag)
     if m:
-        ctx.violate({"batch": batch, "via": "MultiCall-iteration", "config": tag}, m, key="mciter:" + m[:60])
+        ctx.violate(dict({"batch": batch, "via": "MultiCall-iteration", "config": tag}, **extra), m, key="mciter:" + m[:60])
     lines.append("mciter " + benc)
     impl_out.append(canon_iter(got, exc))
     k6, v6 = impl.outcome(lambda: list(results))
     m = monitor_iteration(batch, v6 if k6 == "ok" else None, None if k6 == "ok" else v6, "list(MultiCall()) [%s]" % tag)
     if m:
-        ctx.violate({"batch": batch, "via": "MultiCall-list", "config": tag}, m, key="mclist:" + m[:60])
+        ctx.violate(dict({"batch": batch, "via": "MultiCall-list", "config": tag}, **extra), m, key="mclist:" + m[:60])
     lines.append("mclist " + benc)
     impl_out.append(impl.canon_outcome(k6, v6))
     n = len(batch)
@@ -358,9 +375,218 @@ def drive_batch(ctx, cl, batch, lines, impl_out, positions=None):
         m = monitor_iteration(batch, v7 if k7 == "ok" else None, None if k7 == "ok" else v7,
                               "a1..a%d = MultiCall() [%s]" % (n, tag))
         if m:
-            ctx.violate({"batch": batch, "via": "MultiCall-unpack", "config": tag}, m, key="mcunpack:" + m[:60])
+            ctx.violate(dict({"batch": batch, "via": "MultiCall-unpack", "config": tag}, **extra), m, key="mcunpack:" + m[:60])
         lines.append("mcunpack %d %s" % (n, benc))
         impl_out.append(impl.canon_outcome(k7, v7))
+
+
+# ----------------------------------------------------------------------------------------------------------------
+# the same access paths through the real transport: the reply is the body of an HTTP response
+
+
+def _env2(error="absent", result="absent", rid=1):
+    return envelope("2.0s", rid, result=result, error=error)
+
+
+WIRE_TEMPLATES = [
+    ("pre-message", lambda t: _env2(error={"code": -32601, "message": t})),
+    ("app-message-data", lambda t: _env2(error={"code": 1234, "message": t, "data": [1, 2]})),
+    ("app-data", lambda t: _env2(error={"code": 7, "message": "m", "data": {"k": [t]}})),
+    ("pre-trace", lambda t: _env2(error={"code": -32000, "trace": t})),
+    ("app-key", lambda t: _env2(error={"code": "E1", "message": "m", t: 1})),
+    ("raw-string", lambda t: _env2(error=t)),
+    ("raw-single-entry", lambda t: _env2(error={"reason": t})),
+    ("raw-list", lambda t: _env2(error=[t, "code"])),
+    ("v1-error", lambda t: {"id": 1, "result": None, "error": {"code": -32700, "message": t}}),
+    ("result-string", lambda t: _env2(result=t)),
+    ("result-nested", lambda t: _env2(result={"a": [t, None]}, error=None)),
+    ("id-string-error", lambda t: _env2(error={"code": -32600, "message": "Invalid Request"}, rid=t)),
+]
+WIRE_TEMPLATE = dict(WIRE_TEMPLATES)
+
+
+def _ok(i):
+    return {"jsonrpc": "2.0", "id": i, "result": i}
+
+
+def wire_batch(name, pos, n=3):
+    """An array reply of n entries whose entry `pos` is the template `name`."""
+    def build(t):
+        return [WIRE_TEMPLATE[name](t) if i == pos else _ok(i) for i in range(n)]
+    return build
+
+
+class WireClient(Client):
+    """The real client over the real transport: `text` is the body the peer answers with."""
+
+    def __init__(self, tag, cfg, via, framing, peers):
+        Client.__init__(self, tag, cfg)
+        self.via = via          # "mem" | "tcp" | "unix"
+        self.framing = framing  # clientwire.FRAMINGS
+        self.peers = peers
+
+    def proxy(self, text):
+        body = text.encode("utf-8")
+        if self.via == "mem":
+            tr = clientwire.mem_transport(self.J, self.cfg, body, self.framing)
+            return self.J.ServerProxy("http://localhost/", transport=tr, config=self.cfg)
+        return self.peers.proxy(self.via, self.tag, self.cfg, body, self.framing)
+
+
+class WirePeers(object):
+    """The socket peers (created on first use) and one ServerProxy per (peer, configuration): connections are kept
+    alive across cases, as in a long-lived client."""
+
+    def __init__(self):
+        self.tmpdir = None
+        self.peers = {}
+        self.proxies = {}
+        self.old_timeout = socket.getdefaulttimeout()
+
+    def proxy(self, via, tag, cfg, body, framing):
+        if via not in self.peers:
+            if self.tmpdir is None:
+                self.tmpdir = tempfile.mkdtemp(prefix="jrv-c06-")
+                socket.setdefaulttimeout(30)
+            self.peers[via] = clientwire.ReplyPeer(via, self.tmpdir)
+        peer = self.peers[via]
+        peer.serve(body, framing)
+        if (via, tag) not in self.proxies:
+            self.proxies[(via, tag)] = impl.jsonrpclib.jsonrpc.ServerProxy(peer.url(), config=cfg)
+        return self.proxies[(via, tag)]
+
+    def close(self):
+        for pr in self.proxies.values():
+            try:
+                pr("close")()
+            except Exception:  # noqa: BLE001
+                pass
+        for p in self.peers.values():
+            p.stop()
+        if self.tmpdir is not None:
+            shutil.rmtree(self.tmpdir, ignore_errors=True)
+            socket.setdefaulttimeout(self.old_timeout)
+
+
+def wire_cases(ctx):
+    """(label, build function, character or None, byte offset of the character or None, compact separators)."""
+    rng = ctx.derive_rng("wire")
+    cuts = [1024, 2048] if not ctx.thorough else [1024, 2048, 3072, 5120, 10240]
+    names = [n for n, _ in WIRE_TEMPLATES]
+    out = []
+    # every alignment of every character length around every cut, every template
+    for ch, L in clientwire.CHARS:
+        for k in range(0, L + 1):
+            for cut in cuts:
+                for name in names:
+                    out.append(("align", name, WIRE_TEMPLATE[name], ch, cut - k, False))
+    # array replies (MultiCall): the entry with the character at each position
+    bi = 0
+    for ch, L in clientwire.CHARS:
+        for k in range(0, L + 1):
+            for cut in cuts[:2]:
+                for _ in range(2 if not ctx.thorough else len(names)):
+                    name = names[bi % len(names)]
+                    pos = bi % 3
+                    bi += 1
+                    out.append(("batch", "batch:%s@%d" % (name, pos), wire_batch(name, pos), ch, cut - k, bi % 2 == 0))
+    # texts made of multi-byte characters only: every cut falls inside or between characters, by the shift
+    for ch, L in clientwire.CHARS:
+        for shift in range(L):
+            name = names[(shift + L) % len(names)]
+            text = "a" * shift + ch * (2600 // L)
+            out.append(("dense", name, (lambda t, n=name, x=text: WIRE_TEMPLATE[n](x)), None, None, False))
+            out.append(("dense", "batch:%s@1" % name, (lambda t, n=name, x=text: wire_batch(n, 1)(x)), None, None, True))
+    # controls: long ASCII-only, short non-ASCII, bodies of exactly 1023 / 1024 / 1025 / 2048 bytes
+    for name in ("pre-message", "app-message-data", "raw-string", "result-string"):
+        out.append(("ascii-long", name, (lambda t, n=name: WIRE_TEMPLATE[n]("y" * 1500)), None, None, False))
+        out.append(("short", name, (lambda t, n=name: WIRE_TEMPLATE[n]("é€\U0001F600")), None, None, False))
+        base = len(clientwire.dumps(WIRE_TEMPLATE[name]("")).encode("utf-8"))
+        for size in (1023, 1024, 1025, 2048):
+            out.append(("size-%d" % size, name, (lambda t, n=name, m=size - base - 2: WIRE_TEMPLATE[n]("z" * m + "é")), None, None, False))
+    # random: template, character, offset, separators
+    for _ in range(ctx.budget(150, 4000)):
+        ch, L = rng.choice(clientwire.CHARS)
+        name = rng.choice(names)
+        if rng.random() < 0.5:
+            cut = 1024 * rng.randint(1, 6)
+            start = cut - rng.randint(0, L)
+        else:
+            start = rng.randint(200, 7000)
+        if rng.random() < 0.3:
+            pos = rng.randint(0, 3)
+            out.append(("random", "batch:%s@%d" % (name, pos), wire_batch(name, pos, 4), ch, start, rng.random() < 0.5))
+        else:
+            out.append(("random", name, WIRE_TEMPLATE[name], ch, start, rng.random() < 0.5))
+    return out
+
+
+def run_wire(ctx, cls, lines, impl_out):
+    """Replies delivered by the real transport.  Every case: over the in-memory connection with a Content-Length; over a
+    real socket (TCP / Unix alternating); a part of them gzip-encoded, in chunked transfer encoding, closed by the peer."""
+    peers = WirePeers()
+    n_cases = 0
+    straddling = 0
+    try:
+        for idx, (label, name, build, ch, start, compact) in enumerate(wire_cases(ctx)):
+            if ch is not None:
+                made = clientwire.padded(build, ch, start, compact)
+                if made is None:
+                    continue
+                reply, body = made
+            else:
+                reply = build("")
+                body = clientwire.dumps(reply, compact).encode("utf-8")
+            text = body.decode("utf-8")
+            if json.loads(text) != reply:
+                raise core.InfraError("wire case %r: the body does not parse back to the reply" % (name,))
+            st = clientwire.straddles(body)
+            n_cases += 1
+            straddling += 1 if st else 0
+            for (L, before, cut) in st[:4]:
+                ctx.hist["wire/straddle/%d-byte-char/%d-before-cut" % (L, before)] += 1
+            if not st:
+                ctx.hist["wire/no-character-across-a-cut"] += 1
+            ctx.hist["wire/class/" + label] += 1
+            ctx.hist["wire/body-bytes/%s" % ("<1024" if len(body) < 1024 else "1024-2047" if len(body) < 2048 else ">=2048")] += 1
+            enc = pyval.enc(reply)
+            prefix = "%d %s " % (clientwire.READ, body.hex() or "-")
+            sock_via = ("tcp", "unix")[idx % 2]
+            routes = [("mem", "id"), (sock_via, "id")]
+            if idx % 3 == 0 or ctx.thorough:
+                fr = clientwire.FRAMINGS[1 + (idx // 3) % 3]
+                routes.append(("mem", fr))
+                if idx % 6 == 0 or ctx.thorough:
+                    routes.append((("unix", "tcp")[(idx // 6) % 2], fr))
+            for ri, (via, framing) in enumerate(routes):
+                cfg_i = (idx + ri) % 2 if plain(reply) else 0
+                base = cls[cfg_i]
+                cl = WireClient(base.tag, base.cfg, via, framing, peers)
+                extra = {"wire": {"via": via, "framing": framing, "body_hex": body.hex(), "read_size": clientwire.READ}}
+                ctx.hist["wire/route/%s/%s" % (via, framing)] += 1
+                if isinstance(reply, dict):
+                    ctx.hist["wire/path/call+notify"] += 1
+                    drive_reply(ctx, cl, reply, text, enc, lines, impl_out, False, comps=("wcall", "wnotify"), prefix=prefix, extra=extra)
+                    k, v = impl.outcome(cl.proxy(text)._run_request, '{"jsonrpc": "2.0", "method": "m", "id": 1}')
+                    lines.append("wrun " + prefix + enc)
+                    impl_out.append(impl.canon_outcome(k, v))
+                else:
+                    ctx.hist["wire/path/multicall"] += 1
+                    drive_batch(ctx, cl, reply, lines, impl_out, btext=text, extra=extra)
+                    mc = cl.J.MultiCall(cl.proxy(text), config=cl.cfg)
+                    for _i in range(len(reply)):
+                        mc.m()
+                    k, v = impl.outcome(lambda: list(mc().results))
+                    lines.append("wmc " + prefix + enc)
+                    impl_out.append(impl.canon_outcome(k, v))
+            err = reply.get("error") if isinstance(reply, dict) else None
+            ctx.count(case_repr={"kind": "wire/" + label, "template": name, "body_bytes": len(body), "straddles": st[:3]},
+                      nontrivial_key=("wire", label, name, tuple(st[:2]), len(body) // 1024) if (st and (err or not isinstance(reply, dict))) else None,
+                      kind="wire/%s/%s" % (label, "array" if isinstance(reply, list) else ("raise" if err else "return")))
+    finally:
+        peers.close()
+    ctx.extra["wire_cases"] = n_cases
+    ctx.extra["wire_cases_with_a_character_across_a_read_boundary"] = straddling
 
 
 def run(ctx):
@@ -372,6 +598,13 @@ def run(ctx):
                 "ServerProxy._request and ServerProxy._request_notify (loopback transport; proxies with use_jsonclass off and on), "
                 "sits at a random position of an array reply read by index, iteration, list() and unpacking, and is mixed "
                 "with other drawn replies (several error entries) in a second array reply; "
+                "WIRE: replies as raw-UTF-8 JSON bodies of up to several KiB (12 templates: coded / raw / 1.0 errors, results, array "
+                "replies for MultiCall) with a 2-, 3- or 4-byte character at every alignment (0..L bytes before the cut) around "
+                "each multiple of the 1024-byte read size, texts of multi-byte characters only, ASCII and short controls, bodies of "
+                "1023/1024/1025/2048 bytes, random offsets; each through the library's Transport over an in-memory connection and "
+                "over a real TCP / Unix socket (kept alive), a part gzip-encoded, in chunked transfer encoding (HTTP chunks that cut "
+                "through characters) and delimited by the peer closing; proxy call, notification call, _run_request, MultiCall "
+                "read in every way; "
                 "distinct_nontrivial = distinct (kind, envelope, error shape, code class, outcome class) among replies that raise")
     cases = []
     sysc = list(systematic_cases()) + list(odd_cases())
@@ -445,7 +678,11 @@ def run(ctx):
         ctx.count(case_repr={"kind": kind, "reply": reply, "check_for_errors": cfe_line},
                   nontrivial_key=key, kind="%s/%s/%s" % (kind, env, "raise" if k == "err" else "return"))
 
-    outs = ctx.lean(lines)
+    run_wire(ctx, cls, lines, impl_out)
+
+    uniq = list(dict.fromkeys(lines))  # the same reply travels several routes: one model evaluation each
+    by_line = dict(zip(uniq, ctx.lean(uniq)))
+    outs = [by_line[ln] for ln in lines]
     unmodelled = 0
     per_component = {}
     for ln, mo, io in zip(lines, outs, impl_out):
@@ -476,6 +713,9 @@ def run(ctx):
                            "(listed in C06_full_statement, refuted as stated by C06_full_statement_false)")
     ctx.assumptions.append("falsy non-null error values (0, False, \"\", [], {}) are neither 'non-empty' nor 'null or absent': the monitor "
                            "demands nothing for them (the model, which follows the code, returns the result; correspondence still compared)")
+    ctx.assumptions.append("wire path: the JSON parser is a parameter of the model (lean/JRV/Model/ClientWire.lean); the driver instantiates it "
+                           "with the one-point function body text -> the value CPython's json.loads gives for the whole body; "
+                           "bodies that are not UTF-8 are declined by the model and not generated here (C17 owns them)")
     ctx.assumptions.append("the use_jsonclass=True proxy is exercised with replies that contain no __jsonclass__ key (C15/C16 own bean loading)")
 
 
@@ -500,23 +740,46 @@ def replay(payload):
             self.hits.append((case.get("via"), detail))
 
     c = _Ctx()
-    if "batch" in case:
-        print("replaying array reply %r via %s [%s]" % (case["batch"], via, cl.tag))
-        drive_batch(c, cl, case["batch"], [], [])
-    else:
-        reply = case.get("reply")
-        print("replaying reply %r via %s [%s]" % (reply, via, cl.tag))
-        drive_reply(c, cl, reply, json.dumps(reply), pyval.enc(reply), [], [], True)
-        if isinstance(reply, dict) and via == "MultiCall-batch-object":
-            mc = cl.J.MultiCall(cl.proxy(json.dumps(reply)), config=cl.cfg)
-            mc.m()
-            k4, v4 = impl.outcome(lambda: list(mc()))
-            m = monitor(reply, k4, v4, "MultiCall (single object for the batch)")
-            if m:
-                c.hits.append((via, m))
+    wire = case.get("wire")
+    peers = None
+    text = None
+    kw = {}
+    if wire:
+        # the reply travels as the body of an HTTP response through the real transport
+        body = bytes.fromhex(wire["body_hex"])
+        text = body.decode("utf-8")
+        peers = WirePeers()
+        cl = WireClient(cl.tag, cl.cfg, wire["via"], wire["framing"], peers)
+        print("reply body: %d bytes (raw UTF-8 JSON), delivered via %s, framing %s, read in pieces of %d bytes; multi-byte "
+              "characters across a read boundary (char length, bytes before the cut, cut): %r"
+              % (len(body), wire["via"], wire["framing"], wire.get("read_size", clientwire.READ), clientwire.straddles(body)[:5]))
+        kw = {"extra": {"wire": wire}}
+    try:
+        if "batch" in case:
+            print("replaying array reply %s via %s [%s]" % (_short(case["batch"]), via, cl.tag))
+            drive_batch(c, cl, case["batch"], [], [], btext=text, **kw)
+        else:
+            reply = case.get("reply")
+            print("replaying reply %s via %s [%s]" % (_short(reply), via, cl.tag))
+            drive_reply(c, cl, reply, text if wire else json.dumps(reply), pyval.enc(reply), [], [], not wire, **kw)
+            if isinstance(reply, dict) and via == "MultiCall-batch-object":
+                mc = cl.J.MultiCall(cl.proxy(json.dumps(reply)), config=cl.cfg)
+                mc.m()
+                k4, v4 = impl.outcome(lambda: list(mc()))
+                m = monitor(reply, k4, v4, "MultiCall (single object for the batch)")
+                if m:
+                    c.hits.append((via, m))
+    finally:
+        if peers is not None:
+            peers.close()
     for v, m in c.hits:
         print("VIOLATION reproduced (%s): %s" % (v, m))
         rc = 1
     if not rc:
         print("no violation reproduced")
     return rc
+
+
+def _short(v, limit=400):
+    r = repr(v)
+    return r if len(r) <= limit else r[:limit // 2] + " ... " + r[-limit // 2:]
